@@ -97,14 +97,31 @@ def check_pop_site(ctx, repo, fi, call, discard):
             # head is not None guard
             nn = [t for (t, p) in facts if (t.endswith(".head is None") and not p)]
             ctx.ob("R1", f"{key}::head-not-none", bool(nn), f"{fi.qual}: pop not guarded by `{recv}.head is not None`", loc(fi, P.ast))
-            # the same values are handed to the handler after the pop
+            # the same values are handed to the handler after the pop (value flow through
+            # local assignments / tuple packing is followed: `ret = (data, sender)` ... `d, s = ret`)
             hcalls = [(n, c) for n in g.stmt_nodes() for c in n.calls() if call_name(c) in ("async_handle", "handle")]
             ok = False
+            tainted = {nm: {nm} for nm in names}  # local -> which head values it carries
+            changed = True
+            while changed:
+                changed = False
+                for n2 in g.stmt_nodes():
+                    if isinstance(n2.ast, ast.Assign):
+                        src = set()
+                        for nm in names_in(n2.ast.value):
+                            src |= tainted.get(nm, set())
+                        if src:
+                            for t in n2.ast.targets:
+                                for nm in names_in(t):
+                                    if not src <= tainted.get(nm, set()):
+                                        tainted.setdefault(nm, set()).update(src)
+                                        changed = True
             for n, c in hcalls:
-                argn = set()
+                carried = set()
                 for a in c.args:
-                    argn |= names_in(a)
-                if names <= argn and g.dom(P, n):
+                    for nm in names_in(a):
+                        carried |= tainted.get(nm, set())
+                if names <= carried and g.dom_ps(P, n):
                     ok = True
             ctx.ob("R1", f"{key}::handled-after-pop", ok,
                    f"{fi.qual}: the popped ({', '.join(sorted(names))}) is not passed to handle/async_handle after the pop", loc(fi, P.ast))
@@ -279,6 +296,18 @@ def check(ctx):
         for p, label in g2.pred[g2.exit]:
             facts = g2.guard_atoms(p)
             ok = any(p2 and t.endswith("should_remove_handler") for t, p2 in facts)
+            if not ok:
+                # loop-flag idiom: `keep = True ... while keep: ...; keep = not self.should_remove_handler`
+                for t, p2 in facts:
+                    if t.isidentifier():
+                        defs = [n3.ast.value for n3 in g2.stmt_nodes() if isinstance(n3.ast, ast.Assign) and any(isinstance(x, ast.Name) and x.id == t for x in n3.ast.targets)]
+                        consts = [d for d in defs if isinstance(d, ast.Constant)]
+                        exprs = [d for d in defs if not isinstance(d, ast.Constant)]
+                        if exprs and all(bool(cn.value) != p2 for cn in consts):
+                            # the flag can only have polarity p2 through one of the expressions
+                            from ..cfg import atoms as _atoms
+                            if all(any(tt.endswith("should_remove_handler") and pp for tt, pp in _atoms(e, p2)) for e in exprs):
+                                ok = True
             ctx.ob("R5", f"{qual}::exit-only-when-removed", ok,
                    f"{qual}: can terminate (L{p.lineno}) without should_remove_handler being set; guards {sorted(facts)}", loc(f2, p.ast) if p.ast else f2.loc)
 
@@ -290,7 +319,7 @@ def check(ctx):
         if isinstance(n.ast, ast.Return):
             v = repo.try_fold(n.ast.value, default="?") if n.ast.value is not None else None
             if v is True:
-                ok = any(gw.dom(p, n) for p in pops_w) and any(gw.dom(hn, n) for hn, c in gw.nodes_calling("async_handle"))
+                ok = any(gw.dom_ps(p, n) for p in pops_w) and any(gw.dom_ps(hn, n) for hn, c in gw.nodes_calling("async_handle"))
                 ctx.ob("R6", f"{w.qual}::true-only-after-pop", ok, f"{w.qual} returns True (L{n.lineno}) on a path that did not pop and handle a datagram", loc(w, n.ast))
             elif v is False or v is None:
                 facts = gw.iter_guard_atoms(n)
